@@ -57,6 +57,11 @@ DISTURBANCES = [
 ENDS = ['pass', 'pass', 'fail', 'hard', 'timeout', 'cleanupfail', 'exception', 'validation']
 
 
+def caseline(cid):
+    """1..3, different for neighbouring cases"""
+    return (sum(ord(ch) for ch in cid) % 3) + 1
+
+
 def gen_case(g, cid, force_kind=None):
     kind = force_kind or g.choice(['disturber', 'observer', 'observer'])
     case = {'conf': [], 'setup': [], 'before-assert': [], 'assert': [], 'cleanup': [], 'act': {'lines': ['%% %s-atc' % cid]}}
@@ -77,6 +82,7 @@ def gen_case(g, cid, force_kind=None):
         return {'k': 'fault', 'id': '%s%s%d' % (PFX[ph], cid, n[0])}
 
     case['setup'].append({'k': 'real', 'text': 'def string CASEVAL = val-%s' % cid, 'fx': [['noop']]})
+    case['setup'].append({'k': 'real', 'text': 'def string CASELINE = %d' % caseline(cid), 'fx': [['noop']]})
     case['setup'].append(probe('setup', observe=True))
     end = 'pass'
     if kind == 'disturber':
@@ -173,10 +179,14 @@ def effective_case(plan, c, suite_key):
         ident = 'suite-%s-%s' % (suite_key, ph)
         item = {'k': 'probe', 'id': ident, 'form': '%'}
         procs[ident] = {'exit': 0}
+        items = [item]
+        if ph != 'setup':
+            items.append({'k': 'probe', 'id': ident + '-lines', 'form': '%'})
+            procs[ident + '-lines'] = {'exit': 0}
         if ph == 'cleanup':
-            eff[ph] = eff[ph] + [item]
+            eff[ph] = eff[ph] + items
         else:
-            eff[ph] = [item] + eff[ph]
+            eff[ph] = items + eff[ph]
     return eff, procs
 
 
@@ -217,6 +227,10 @@ def suite_text(plan, key, order=None):
     for ph in phases:
         # the suite's instructions are parsed once and shared by all cases: they refer to things that differ per case
         lines += ['[%s]' % ph, '%% suite-%s-%s %s' % (key, ph, SUITE_ARGS_SETUP if ph == 'setup' else SUITE_ARGS)]
+        if ph != 'setup':
+            # a value computed by a transformer from a per-case symbol reaches the child as its stdin
+            lines += ['run %% suite-%s-%s-lines' % (key, ph),
+                      '  -stdin -contents-of -rel-home lines.txt -transformed-by filter -line-nums @[CASELINE]@']
     return '\n'.join(lines) + '\n'
 
 
@@ -225,6 +239,8 @@ SUITE_ARGS = '@[CASEVAL]@ @[EXACTLY_ACT]@ "x-@[CASEVAL]@"'
 
 
 def suite_marker_args(tag, cid):
+    if tag.endswith('-lines'):
+        return [tag]
     if tag.endswith('-setup'):
         return [tag, '$SBX/act']
     return [tag, 'val-' + cid, '$SBX/act', 'x-val-' + cid]
@@ -300,7 +316,7 @@ def _record(sim, w, s0, s1, t0, t1, sandbox_index):
     for s in spawns:
         events.append({'seq': s['seq'], 'kind': 'spawn', 'id': s['tag'], 'cwd': rel(s['cwd']), 'env': dict(s['env']),
                        'waits': list(s['waits']), 'killed': s['killed'], 'exit': s['exit'], 'error': s.get('spawn_error'),
-                       'args': nargs(s['args']), 't_spawn': 0, 't_kill': None, 'n': 0,
+                       'args': nargs(s['args']), 'stdin': s['stdin'], 't_spawn': 0, 't_kill': None, 'n': 0,
                        'obs': s['obs'].get('sbx')})
     for t in traces:
         if t['step'] in ('main', 'execute'):
@@ -326,6 +342,9 @@ def execute(plan, scratch):
     for k in ('root', 'sub'):
         for ph in PHASES:
             procs['suite-%s-%s' % (k, ph)] = {'exit': 0}
+            procs['suite-%s-%s-lines' % (k, ph)] = {'exit': 0}
+    w.write('home/lines.txt', 'l1\nl2\nl3\n')
+    w.write('home/sub/lines.txt', 'l1\nl2\nl3\n')
     for c in cases:
         w.write('home/%s.case' % c['id'], render_case(c))
     w.write('home/root.suite', suite_text(plan, 'root'))
@@ -541,6 +560,9 @@ def oracle(plan, hist):
                 if x is None:
                     continue
                 if e['kind'] == 'spawn':
+                    if e['id'].endswith('-lines') and e['stdin'] != 'l%d\n' % caseline(cid):
+                        bad('suite_instruction_sees_the_case_it_runs_in', {'stdin': 'l%d\n' % caseline(cid)},
+                            {'stdin': e['stdin']}, case=cid, mode=mode, instruction='-transformed-by filter -line-nums @[CASELINE]@')
                     if e['id'].startswith('suite-') and e['args'] != suite_marker_args(e['id'], cid):
                         bad('suite_instruction_sees_the_case_it_runs_in', suite_marker_args(e['id'], cid), e['args'],
                             case=cid, mode=mode)
